@@ -455,5 +455,44 @@ def rule_g(ctx: Ctx) -> None:
                 'element and tail slices advance() uses to close an occurrence of the group.')
 
 
-RULES = [rule_a, rule_b, rule_c, rule_d, rule_e, rule_f, rule_g]
+def rule_h(ctx: Ctx, rule: str = 'C01.h') -> None:
+    """A model group has two occurrence counters, `occurs[g]` and `occurs[g.oid]`, and XsdGroup.is_missing() reads `occurs[self.oid] or
+    occurs[self]`: the second one wins whenever it is not zero.  Entering a nested group for a new round therefore resets both; a reset of
+    `occurs[g]` alone leaves the count of the previous round in `occurs[g.oid]` and the re-entered group is taken as already satisfied - a
+    required child missing in the second repetition of (entry, (file | link))+ is not reported."""
+    reader = ctx.idx.method('xmlschema.validators.groups.XsdGroup', 'is_missing')
+    premise = 'occurs[self.oid] or occurs[self]' in text(reader.node)
+    ctx.ob(rule, 'XsdGroup.is_missing reads occurs[self.oid] before occurs[self] (premise)', reader.loc(), premise, '', key='XsdGroup.is_missing|oid-first', nontrivial=False)
+    n = 0
+    for f in ctx.idx.iter_functions('validators.models'):
+        if isinstance(f.node, ast.Lambda):
+            continue
+        g = None
+        for x in walk_no_nested(f.node):
+            if not (isinstance(x, ast.Assign) and isinstance(x.value, ast.Constant) and x.value.value == 0):
+                continue
+            tg = [text(t) for t in x.targets]
+            plain = [t for t in tg if t.startswith('occurs[') and not t.endswith('.oid]')]
+            if not plain:
+                continue
+            var = plain[0][len('occurs['):-1]
+            if g is None:
+                g = cfg_of(ctx, f)
+            own = g.nodes_of(x)
+            if not own:
+                continue
+            gs = guards(ctx, f, own[0])
+            is_group = any(t in (f'isinstance({var}, groups.XsdGroup)', f'isinstance({var}, XsdGroup)') and lab == 'T' for t, lab in gs)
+            if not is_group:
+                continue
+            n += 1
+            ok = f'occurs[{var}.oid]' in tg
+            ctx.ob(rule, f'{f.qualname.split(".", 2)[-1]}: entering the nested group `{var}` resets both of its occurrence counters', f.loc(x), ok,
+                   '' if ok else f'`{text(x)}` leaves `occurs[{var}.oid]` at the count of the previous round: is_missing() then sees the re-entered group as satisfied and a missing '
+                   'required child in a later repetition of the enclosing group goes unreported (the document is valid)', key=f'{f.qualname}|group-reset|{var}')
+    ctx.floor(rule, 'resets of a nested group on entry', n, 1)
+    ctx.explain(f'{rule}: every `occurs[g] = 0` under the guard isinstance(g, XsdGroup) also assigns `occurs[g.oid]` (chained targets), because the reader prefers the oid counter.')
+
+
+RULES = [rule_a, rule_b, rule_c, rule_d, rule_e, rule_f, rule_g, rule_h]
 THOROUGH = [thorough_a]
